@@ -26,11 +26,10 @@ def main():
             continue
         meta = json.load(open(os.path.join(d, "meta.json")))
         pid = meta["property"]
-        sh("git checkout -q -- . && git clean -fdq slicec slice-codec", cwd=M + "/repo")
+        sh("git reset -q --hard && git clean -fdq", cwd=M + "/repo")
         r = sh("git apply %s/patch.diff" % d, cwd=M + "/repo")
         if r.returncode != 0:
-            r = sh("git apply -3 %s/patch.diff" % d, cwd=M + "/repo")
-        if r.returncode != 0:
+            sh("git reset -q --hard && git clean -fdq", cwd=M + "/repo")
             meta["ran"] = "git apply on %s failed: %s" % (head, r.stdout.strip()[:300])
             meta["detected_by"] = []
             print(sid, "PATCH-DOES-NOT-APPLY")
@@ -49,6 +48,6 @@ def main():
         readme = open(os.path.join(d, "README.md")).read() if os.path.exists(os.path.join(d, "README.md")) else ""
         meta["needs_to_manifest"] = meta.get("needs_to_manifest") or section(readme, "What is needed for it to manifest")
         json.dump(meta, open(os.path.join(d, "meta.json"), "w"), indent=1, ensure_ascii=False)
-        sh("git checkout -q -- . && git clean -fdq slicec slice-codec", cwd=M + "/repo")
+        sh("git reset -q --hard && git clean -fdq", cwd=M + "/repo")
 
 main()
